@@ -82,3 +82,25 @@ HOLDERS = [H0, H1, H2, H3]
 
 def fn_tag(v):
     return ("fn", v)
+
+
+class Leaf(Base):
+    idx = 20
+
+
+class Mid(Base):
+    """nested one level inside Top, itself holding a nested Leaf"""
+
+    idx = 21
+
+    def __init__(self, leaf: Base, f0: Any = None, f1: Any = None, f2: Any = None, f3: Any = None, own: int = 1):
+        super().__init__(f0, f1, f2, f3, own)
+        self.leaf = leaf
+
+
+class Top(Base):
+    idx = 22
+
+    def __init__(self, mid: Base, f0: Any = None, f1: Any = None, f2: Any = None, f3: Any = None, own: int = 1):
+        super().__init__(f0, f1, f2, f3, own)
+        self.mid = mid
